@@ -910,11 +910,114 @@ class DataFrame(_HasIndex):
     def merge(self, *a, **k):
         raise Unsupported("merge")
 
-    def groupby(self, *a, **k):
-        raise Unsupported("groupby")
+    def groupby(self, by=None, sort=True, **k):
+        if k:
+            raise Unsupported("groupby(%s)" % ", ".join(k))
+        return _GroupBy(self, [by] if isinstance(by, str) else list(by), sort)
 
     def to_csv(self, *a, **k):
         raise Unsupported("DataFrame.to_csv (codec) outside the VFS")
+
+
+class _GroupBy:
+    """groups = classes of rows with equal key cells (symbolic equality forks); only operations whose
+    result does not depend on the order of the groups are modelled, plus sorted concrete keys."""
+
+    def __init__(self, df, by, sort, col=None):
+        self.df, self.by, self.sort, self.col = df, by, sort, col
+        for b in by:
+            if b not in df._c:
+                raise KeyError(b)
+        n = len(df.index)
+        self.gid = []
+        reps = []
+        for i in range(n):
+            for g, j in enumerate(reps):
+                if _truth(s_and(*[_eq(df._c[b][i], df._c[b][j]) for b in by])):
+                    self.gid.append(g)
+                    break
+            else:
+                reps.append(i)
+                self.gid.append(len(reps) - 1)
+        self.reps = reps
+
+    def __getitem__(self, col):
+        if isinstance(col, list):
+            raise Unsupported("groupby()[list]")
+        if col not in self.df._c:
+            raise KeyError(col)
+        return _GroupBy.__new_like__(self, col)
+
+    @staticmethod
+    def __new_like__(g, col):
+        o = object.__new__(_GroupBy)
+        o.__dict__.update(g.__dict__)
+        o.col = col
+        return o
+
+    def _agg(self, how, vals):
+        if how in ("max", "min"):
+            m = vals[0]
+            for v in vals[1:]:
+                m = core.ite((v > m) if how == "max" else (v < m), v, m)
+            return m
+        if how == "sum":
+            t = 0
+            for v in vals:
+                t = t + v
+            return t
+        if how in ("count", "size"):
+            return len(vals)
+        if how == "first":
+            return vals[0]
+        if how == "last":
+            return vals[-1]
+        raise Unsupported("groupby aggregation %r" % (how,))
+
+    def transform(self, how):
+        if self.col is None or not isinstance(how, str):
+            raise Unsupported("groupby.transform on a frame / with a callable")
+        col = self.df._c[self.col]
+        per = {}
+        for g in range(len(self.reps)):
+            per[g] = self._agg(how, [col[i] for i in range(len(col)) if self.gid[i] == g])
+        return Series([per[g] for g in self.gid], self.df.index, self.col)
+
+    def _reduce(self, how):
+        if self.col is None:
+            raise Unsupported("groupby.%s on a frame" % how)
+        if len(self.by) != 1:
+            raise Unsupported("groupby on several keys with a reduction")
+        col = self.df._c[self.col]
+        keys = [self.df._c[self.by[0]][j] for j in self.reps]
+        vals = [self._agg(how, [col[i] for i in range(len(col)) if self.gid[i] == g]) for g in range(len(self.reps))]
+        order = list(range(len(keys)))
+        if self.sort:
+            if any(isinstance(k, Sym) for k in keys):
+                raise Unsupported("groupby(sort=True) reduction with symbolic keys")
+            order.sort(key=lambda g: keys[g])
+        return Series([vals[g] for g in order], [keys[g] for g in order], self.col)
+
+    def max(self):
+        return self._reduce("max")
+
+    def min(self):
+        return self._reduce("min")
+
+    def sum(self):
+        return self._reduce("sum")
+
+    def size(self):
+        return self._reduce("size")
+
+    def count(self):
+        return self._reduce("count")
+
+    def first(self):
+        return self._reduce("first")
+
+    def __getattr__(self, name):
+        raise Unsupported("groupby.%s" % name)
 
 
 SORT_NONDET = [True]  # see symnp.ARGSORT_NONDET (pandas' default quicksort inherits numpy's unstable sort)
